@@ -104,7 +104,10 @@ harness!(se_h_c19, c19, {
 // (large sink); right after the first call that returns Malformed - when deferred output such as gb18030's pending
 // ASCII byte may be waiting - latin1_byte_compatible_up_to is asked about the unconsumed remainder.  Some(n) must be
 // sound: the twin, continuing from the same state, decodes the next n bytes to exactly those byte values.
-// params: 0 encoding, 1/2 symbolic byte count, 5/6 first-byte shard, 7 prefix id, 8 BOM mode
+// params: 0 encoding, 1/2 symbolic byte count, 5/6 first-byte shard, 7 prefix id, 8 BOM mode, 9 destination capacity in UTF-16
+//         units (0 = 40, large; small values make OutputFull returns - the other kind of mid-buffer return - possible),
+//         10 != 0: the stream is cut at a symbolic point into two non-last buffers (the BOM front end withholds bytes only at
+//         the end of a buffer)
 harness!(se_h_c19_mid, c19_mid, {
     let e = param(0);
     let mut src = [0u8; 16];
@@ -114,37 +117,46 @@ harness!(se_h_c19_mid, c19_mid, {
     while i < n { src[len + i] = sym_u8(i as u32); i += 1; }
     if n > 0 { assume(src[len] >= param(5) as u8 && src[len] <= param(6) as u8); }
     len += n;
+    let cap = if param(9) == 0 { 40 } else { param(9) };
+    let cut = if param(10) != 0 { sym_range(101, 0, len) } else { len };
+    let segs = [(0usize, cut), (cut, len)];
     let mut d = new_decoder(e, param(8));
     let mut t = new_decoder(e, param(8));
-    let mut pos = 0usize;
     let mut calls = 0;
-    loop {
-        let mut o1 = [0u16; 40]; let mut o2 = [0u16; 40];
-        let (r1, rd1, _w1) = d.decode_to_utf16_without_replacement(&src[pos..len], &mut o1, false);
-        let (r2, rd2, _w2) = t.decode_to_utf16_without_replacement(&src[pos..len], &mut o2, false);
-        check(rd1 == rd2, 1);
-        pos += rd1;
-        calls += 1;
-        check(calls < 20, 2);
-        match r1 {
-            DecoderResult::InputEmpty => { check(r2 == DecoderResult::InputEmpty, 3); break; }
-            DecoderResult::OutputFull => { check(false, 4); break; }
-            DecoderResult::Malformed(_, _) => {
-                reach(64);
-                let rest = &src[pos..len];
-                if let Some(k) = d.latin1_byte_compatible_up_to(rest) {
-                    reach(65);
-                    check(k <= rest.len(), 5);
-                    let mut out = [0u16; 40];
-                    let (r, rd, w) = t.decode_to_utf16_without_replacement(&rest[..k], &mut out, false);
-                    check(r == DecoderResult::InputEmpty && rd == k, 6);
-                    check(w == k, 7);
-                    let mut j = 0;
-                    while j < k && j < w { check(out[j] == rest[j] as u16, 8); j += 1; }
-                } else { reach(66); }
-                break;
+    let mut queried = false;
+    let mut s = 0;
+    while s < 2 && !queried {
+        let (a, b) = segs[s];
+        let mut pos = a;
+        loop {
+            let mut o1 = [0u16; 40]; let mut o2 = [0u16; 40];
+            let (r1, rd1, _w1) = d.decode_to_utf16_without_replacement(&src[pos..b], &mut o1[..cap], false);
+            let (r2, rd2, _w2) = t.decode_to_utf16_without_replacement(&src[pos..b], &mut o2[..cap], false);
+            check(rd1 == rd2, 1);
+            pos += rd1;
+            calls += 1;
+            check(calls < 24, 2);
+            match r1 {
+                DecoderResult::InputEmpty => { check(r2 == DecoderResult::InputEmpty, 3); break; }
+                _ => {
+                    if r1 == DecoderResult::OutputFull { check(cap < 40, 4); reach(67); } else { reach(64); }
+                    let rest = &src[pos..b];
+                    if let Some(k) = d.latin1_byte_compatible_up_to(rest) {
+                        reach(65);
+                        check(k <= rest.len(), 5);
+                        let mut out = [0u16; 40];
+                        let (r, rd, w) = t.decode_to_utf16_without_replacement(&rest[..k], &mut out, false);
+                        check(r == DecoderResult::InputEmpty && rd == k, 6);
+                        check(w == k, 7);
+                        let mut j = 0;
+                        while j < k && j < w { check(out[j] == rest[j] as u16, 8); j += 1; }
+                    } else { reach(66); }
+                    queried = true;
+                    break;
+                }
             }
         }
+        s += 1;
     }
     reach(END);
 });
